@@ -36,6 +36,8 @@ TARGETS = [
     ("lib/mergefiles.c", "insert_nogroup"),
     ("lib/mergefiles.c", "merge_existing_groups"),
     ("lib/mergefiles.c", "add_new_groups"),
+    # the caller of the three: allocation of the result and its array (calloc, malloc, the address of a local), the calls, the assignments
+    ("lib/libeconf.c", "econf_mergeFiles"),
 ]
 
 # struct types whose members become word slots (one per member, in declaration order)
@@ -92,6 +94,7 @@ def record_of(q):
 
 _layouts = {}
 _field_is_ptr = {}
+_field_ty = {}
 _enums = {}
 
 
@@ -135,6 +138,11 @@ def layout(path, rec):
                             raise Unsupported("array member: %s.%s" % (rec, c.get("name")))
                         fields.append(c.get("name"))
                         _field_is_ptr[(rec, c.get("name"))] = q.endswith("*")
+                        if not q.endswith("*"):
+                            try:
+                                _field_ty[(rec, c.get("name"))] = ty_of(c)
+                            except Unsupported:
+                                pass
                 break
         if fields is None:
             raise Unsupported("no definition of struct %s in %s" % (rec, path))
@@ -186,6 +194,21 @@ class FnTr:
         self.pending = []           # hoisted calls of translated functions (statements)
         self.no_hoist = False
         self.body_node = next(c for c in decl["inner"] if c.get("kind") == "CompoundStmt")
+        # local variables of scalar type whose address is taken (`&fe`): they live in a block of one word of their own, the
+        # variable of the interpreter holds the pointer to it; every read and write of the C variable goes through that word
+        self.celllocal = set()
+        def scan(n):
+            if not isinstance(n, dict):
+                return
+            if n.get("kind") == "UnaryOperator" and n.get("opcode") == "&":
+                sub = n.get("inner", [{}])[0]
+                while sub.get("kind") == "ParenExpr":
+                    sub = sub.get("inner", [{}])[0]
+                if sub.get("kind") == "DeclRefExpr" and sub.get("referencedDecl", {}).get("kind") == "VarDecl":
+                    self.celllocal.add(sub["referencedDecl"]["id"])
+            for c in n.get("inner", []) or []:
+                scan(c)
+        scan(self.body_node)
         self.ret_ty = None
         rt = decl.get("type", {}).get("qualType", "")
         self.ret_ty = "ptr" if (rt.split("(")[0].strip().endswith("*") or record_of(rt.split("(")[0].replace("const ", "").strip())) else None
@@ -316,6 +339,8 @@ class FnTr:
             d = n["referencedDecl"]
             if d.get("id") not in self.vars:
                 raise Unsupported("reference to %s (not a parameter or local variable)" % d.get("name"))
+            if d.get("id") in self.celllocal:
+                return "(.slot (.load (.var %d) .ptr) 0)" % self.vars[d["id"]]
             return "(.var %d)" % self.vars[d["id"]]
         if k == "UnaryOperator" and n.get("opcode") == "*":
             if ty_of(n) in ("i8", "u8", "bool"):      # one-byte objects live in character memory
@@ -367,6 +392,13 @@ class FnTr:
             sub = self.inner(n)[0]
             if op in ("++", "--"):
                 return "(.incdec %s %s %s .%s)" % (self.lval(sub), lb(op == "++"), lb(bool(n.get("isPostfix"))), ty_of(n))
+            if op == "&":
+                t = sub
+                while t.get("kind") == "ParenExpr":
+                    t = self.inner(t)[0]
+                if t.get("kind") == "DeclRefExpr" and t.get("referencedDecl", {}).get("id") in self.celllocal:
+                    return "(.load (.var %d) .ptr)" % self.vars[t["referencedDecl"]["id"]]
+                raise Unsupported("address of %s" % t.get("kind"))
             if op == "!":
                 return "(.un .lnot %s .%s)" % (self.expr(sub), ty_of(n))
             if op == "-":
@@ -440,6 +472,15 @@ class FnTr:
             raise Unsupported("lvalue %s used without conversion" % k)
         raise Unsupported("expression %s" % k)
 
+    def top_alloc(self, n, target_type):
+        """like `top`, but `malloc(<n> * sizeof(struct T))` assigned to a `struct T *` is an array of words"""
+        call = self.strip(n)
+        rec = record_of(target_type.rstrip("*").strip()) if target_type.endswith("*") else None
+        if rec and call.get("kind") == "CallExpr" and self.callee_name(call) == "malloc":
+            pre, e = self.top(self.inner(call)[1])        # sizeof(struct T) counts words, so the argument is a number of words
+            return pre, "(.call \"malloc_words\" (.cons %s .nil))" % e
+        return self.top(n)
+
     # ----- calls of translated functions (inlined)
     def strip(self, n):
         while n.get("kind") in ("ParenExpr",) or (n.get("kind") in ("ImplicitCastExpr", "CStyleCastExpr") and n.get("castKind") in ("NoOp", "BitCast")):
@@ -499,13 +540,17 @@ class FnTr:
                 self.vars[v["id"]] = len(self.vars)
                 idx = self.vars[v["id"]]
                 init = self.inner(v)
+                target = "(.var %d)" % idx
+                if v["id"] in self.celllocal:
+                    out.append("(.expr (.assign (.var %d) (.call \"alloca_words\" (.cons (.lit 1 .u64) .nil)) .ptr))" % idx)
+                    target = "(.slot (.load (.var %d) .ptr) 0)" % idx
                 if init:
                     if self.is_user_call(init[0]):
-                        out += self.user_call(init[0], "(.var %d)" % idx, ty)
+                        out += self.user_call(init[0], target, ty)
                     else:
-                        pre, e = self.top(init[0])
+                        pre, e = self.top_alloc(init[0], clean_type(v))
                         out += pre
-                        out.append("(.expr (.assign (.var %d) %s .%s))" % (idx, e, ty))
+                        out.append("(.expr (.assign %s %s .%s))" % (target, e, ty))
             return out
         if k == "IfStmt":
             parts = self.inner(n)
@@ -569,6 +614,30 @@ class FnTr:
             dst = self.addr(a)
             pre2, self.pending = self.pending, []
             return pre + pre2 + ["(.expr (.call \"copy_words\" (.cons %s (.cons %s (.cons (.lit %d .u64) .nil)))))" % (dst, src, nwords)]
+        # X = calloc(1, sizeof(struct T)): a block of the struct's words, every member zero (NULL for the pointer members)
+        if k == "BinaryOperator" and n.get("opcode") == "=":
+            a, b = self.inner(n)
+            call = self.strip(b)
+            if call.get("kind") == "CallExpr" and self.callee_name(call) == "calloc":
+                args = self.inner(call)[1:]
+                rec = record_of(clean_type(a).rstrip("*").strip()) if clean_type(a).endswith("*") else None
+                def unwrap(x):
+                    while x.get("kind") in ("ImplicitCastExpr", "ParenExpr", "CStyleCastExpr"):
+                        x = self.inner(x)[0]
+                    return x
+                one = unwrap(args[0])
+                sz = unwrap(args[1])
+                if rec is None or one.get("kind") != "IntegerLiteral" or one.get("value") != "1" or \
+                        not (sz.get("kind") == "UnaryExprOrTypeTraitExpr" and record_of(clean_type({"type": sz.get("argType", {})})) == rec):
+                    raise Unsupported("calloc other than calloc(1, sizeof(struct)) assigned to a pointer to that struct")
+                fields = layout(self.path, rec)
+                lv = self.lval(a)
+                out = ["(.expr (.assign %s (.call \"malloc_words\" (.cons (.lit %d .u64) .nil)) .ptr))" % (lv, len(fields))]
+                for i, f in enumerate(fields):
+                    zero = ".null" if _field_is_ptr[(rec, f)] else "(.lit 0 .i32)"
+                    fty = "ptr" if _field_is_ptr[(rec, f)] else _field_ty.get((rec, f), "i32")
+                    out.append("(.expr (.assign (.slot (.load %s .ptr) %d) %s .%s))" % (lv, i, zero if fty == "ptr" else "(.cast .%s (.lit 0 .i32))" % fty, fty))
+                return out
         # expression statement
         if self.is_user_call(n):
             return self.user_call(n, None, None)
